@@ -32,6 +32,12 @@ PROP = {  # commit subject fragment -> (property, key)
  "tracer stayed disabled after an exception": ("C05", "temporarily-disable-without-finally"),
  "left cached fitness values stale": ("C12", "mutation-insert-after-restore"),
  "abandoned timed-out test thread": ("C32", "abandoned-thread-stops-tracer"),
+ "KeyError for a loop in dead code": ("C06", "dead-code-cycle"),
+ "beyond chromosome_length": ("C15", "insertion-exceeds-chromosome-length"),
+ "statements binding a lambda": ("C24", "seed-parser-drops-lambda-statements"),
+ "attribute names as variable reads": ("C24", "seed-parser-drops-type-name-assertions"),
+ "keyword-argument names that equal": ("C24", "seed-parser-rewrites-keyword-names"),
+ "filesystem isolation modified and deleted": ("C29", "pre-existing-paths-modified"),
 }
 log = subprocess.run(["git", "-C", "/repo", "log", "--reverse", "--format=%h\t%s", "f3b3f37..HEAD"], capture_output=True, text=True).stdout
 k = json.load(open("/verif/known_findings.json"))
